@@ -2,6 +2,7 @@ package c07
 
 import (
 	"reflect"
+	"strconv"
 )
 
 // knownFeature names a root-cause class by a predicate over the case shape.
@@ -29,8 +30,10 @@ func (g *gen) genCase1() *Case {
 		return g.genMethod()
 	case k < 86:
 		return g.genX2()
-	case k < 95:
+	case k < 93:
 		return g.genIface()
+	case k < 96:
+		return g.genFwd()
 	default:
 		return g.genVar()
 	}
@@ -305,6 +308,9 @@ func (c *Case) labels() ([]string, bool) {
 	case "var":
 		nontrivial = !c.V.Ty.isBasic()
 		ls = append(ls, c.V.labels()...)
+	case "fwd":
+		nontrivial = c.F.Hops > 0 || c.F.Source != "conv"
+		ls = append(ls, "fwd:kind:"+c.F.Kind, "fwd:hops:"+strconv.Itoa(c.F.Hops), "fwd:source:"+c.F.Source, "fwd:host:"+c.F.Host)
 	}
 	// deterministic order
 	sortStrings(ls)
